@@ -239,8 +239,17 @@ class RefA:
         n = len(args)
         key = (name, n)
         goal = ('c', name, args)
-        # dynamic facts come first for every name (snapshot = logical update view)
-        for fid, ft in list(self.facts.get(key, [])):
+        # the call resolves at the moment it is made: facts (snapshot = logical update view) and the definitions
+        # registered now, whatever is loaded or registered while this call is suspended
+        facts_now = list(self.facts.get(key, []))
+        sources = None
+        if name not in RESERVED:
+            sources = self.defs.get(key)
+            if sources is None and name in self.variadic:
+                sources = [self.variadic[name]]
+            if sources is not None:
+                sources = list(sources)
+        for fid, ft in facts_now:
             self.tick()
             ft2 = as_struct(self.rename(ft, {}))
             s1 = self.usto(goal, ft2, s)
@@ -248,11 +257,8 @@ class RefA:
                 yield s1
         if name in RESERVED:
             return
-        sources = self.defs.get(key)
-        if sources is None and name in self.variadic:
-            sources = [self.variadic[name]]
         if sources is not None:
-            for src in list(sources):
+            for src in sources:
                 yield from self.run_source(src, goal, s)
             return
         # builtins (only when not redefined; the engine registers them as functions
